@@ -125,7 +125,7 @@ Lemmas ==
     /\ (op = "pow" /\ ~FloatForm(sc.form, n)) => PowTags(a, n, sc.form, {}) = {}
     /\ (op = "pow" /\ RIsInt(n)) => PowTags(a, n, sc.form, {}) = {}
     \* with the deviation repaired the transcription is the ideal
-    /\ (op = "pow") => PowTags(a, n, sc.form, {"float_exponent_truncated"}) = {}
+    /\ (op = "pow") => PowTags(a, n, sc.form, {"float_exponent_truncated", "npfloat32_exponent_truncated"}) = {}
 
 Spec == Init /\ [][Next]_vars
 =============================================================================
